@@ -11,14 +11,14 @@ TECHNIQUE = ("Coq proof (induction on the shifting loop over an arbitrary direct
              "names) about a hand-written Gallina model of FileLogger::rotate and the purge branch of "
              "FilePersister::initialise with instrumented vector bounds; model tied to the code by differential "
              "execution (extracted OCaml vs the real classes on a private directory, libstdc++ assertions + ASan)")
-LEVEL_TEXT = ("Theorems c29_shift/c29_cap/c29_untouched/c29_append/c29_bounds: for every directory, file name and "
-              "rotation count <= 1024 the modelled rotation (logger and store) shifts generation k-1 into k for "
-              "1 <= k <= min(count,1024), leaves the live file fresh, creates no generation beyond the kept number, "
-              "leaves every other name alone, does nothing to an append-mode log unless forced and never indexes "
-              "outside its name vector; c29_model_ok: the executable oracle holds on every run of the model with "
-              "count <= 1024.  c29_oob_all/c29_oob_sweep: every count above 1024 (0..1100 swept: exactly 1025..1100) "
-              "indexes past the vector - a genuine defect (known finding).  The model is tied to FileLogger and "
-              "FilePersister by running both on the same pre-populated directories.")
+LEVEL_TEXT = ("Theorems c29_bounds/c29_shift/c29_cap/c29_untouched/c29_append (+ store versions): for every directory, "
+              "file name and rotation count (no bound) the modelled rotation (logger and store) never indexes outside "
+              "its name vector, shifts generation k-1 into k for 1 <= k <= min(count,1024), leaves the live file fresh, "
+              "creates no generation beyond the kept number, leaves every other name alone and does nothing to an "
+              "append-mode log unless forced; c29_model_ok: the executable oracle holds on every run of the model. "
+              "c29_sweep_*: counts 0..1100 swept by evaluation, none out of bounds; c29_oob_orig_refuted: the routines "
+              "before the repair a64fc7d indexed past the vector for every count above 1024.  The model is tied to "
+              "FileLogger and FilePersister by running both on the same pre-populated directories.")
 LEVEL_NOTE = ("Trusted: Coq kernel, extraction (ExtrOcamlBasic), the hand transcription of rotate/initialise (checked by "
               "the correspondence run), POSIX rename/open semantics as modelled (one directory, regular files, no "
               "concurrent writer), -D_GLIBCXX_ASSERTIONS turning an out-of-range vector index into an abort, "
@@ -217,7 +217,7 @@ def nontrivial(case, r):
 
 
 def c_count_above_cap(case, r, m):
-    # negation of the hypothesis  rotnum <= cap  of c29_model_ok / c29_bounds
+    # the counts on which the routines before the repair a64fc7d went out of bounds (c29_oob_orig_refuted)
     return parse(case)[2] > CAP
 
 
